@@ -10,6 +10,24 @@ HEADS = ("S", "A")
 TERMS = ("a", "b")
 
 
+class FreshNames:
+    """Renaming under which EVERY occurrence of a nonterminal is a distinct Python object
+    (equal and equally hashed, never identical): multi-character strings built at run time are
+    not interned.  Models names read from a file or assembled by the caller."""
+
+    def __init__(self, nts, prefix="N:"):
+        self.nts = set(nts)
+        self.prefix = prefix
+
+    def get(self, x, default=None):
+        if x in self.nts:
+            return "".join((self.prefix, str(x)))
+        return default
+
+    def __repr__(self):
+        return f"FreshNames({self.prefix!r}+name, a new object per occurrence)"
+
+
 def build(rules, R, weights, S="S", V=TERMS, order=None, rename=None):
     """rules: list of (head, body); weights[i] is the weight of rule i.
     order: permutation of rule indices (builder-operation order);
@@ -96,6 +114,7 @@ def permutations_and_renamings(rules, max_perms=None):
         dict(zip(nts, reversed(nts))) if len(nts) > 1 else {n: "Z" for n in nts},
         {n: i for i, n in enumerate(reversed(nts))},
         {n: (n, "t") for n in nts},
+        FreshNames(nts),
     ]
     perms = list(itertools.permutations(range(len(rules))))
     if max_perms is not None:
